@@ -119,6 +119,11 @@ impl Connector for LoadBalanceConnector {
 impl LoadBalanceConnector {
     fn random(self: &Arc<Self>, state: &Arc<GlobalState>) -> Result<Arc<dyn Connector>, Error> {
         let next = self.connectors.choose(&mut thread_rng()).unwrap();
+        #[cfg(redproxy_verif)]
+        crate::vtrace::emit(
+            "lb_select",
+            serde_json::json!({"lb": self.name, "algo": "random", "member": next}),
+        );
         Ok(state.connectors.get(next).unwrap().clone())
     }
 
@@ -127,6 +132,12 @@ impl LoadBalanceConnector {
         state: &Arc<GlobalState>,
     ) -> Result<Arc<dyn Connector>, Error> {
         let next = self.idx.fetch_add(1, Ordering::Relaxed);
+        #[cfg(redproxy_verif)]
+        crate::vtrace::emit(
+            "lb_select",
+            serde_json::json!({"lb": self.name, "algo": "rr", "ticket": next, "n": self.connectors.len(),
+                               "member": self.connectors[next % self.connectors.len()]}),
+        );
         let next = &self.connectors[next % self.connectors.len()];
         Ok(state.connectors.get(next).unwrap().clone())
     }
@@ -144,6 +155,11 @@ impl LoadBalanceConnector {
         let hash = hasher.finish() as usize;
         debug!("result: {:?} hash: {:?}", result, hash);
         let next = &self.connectors[hash % self.connectors.len()];
+        #[cfg(redproxy_verif)]
+        crate::vtrace::emit(
+            "lb_select",
+            serde_json::json!({"lb": self.name, "algo": "hash", "key": result.to_string(), "member": next}),
+        );
         Ok(state.connectors.get(next).unwrap().clone())
     }
 }
